@@ -205,6 +205,56 @@ def _fam_job(job: t.Tuple[t.Any, ...]) -> evid.Local:
         req = L.ExtendedRequest(1, [], "1.2", None).pack(c05.K.OPTS)
         rec(family_costs(lambda k: (req * k, False), run_receive), {"fam": "many-pdus"}, "receive(k PDUs in one chunk)")
         rec(family_costs(lambda k: (req * k, True), run_receive), {"fam": "many-pdus-bytewise"}, "receive(k PDUs byte-at-a-time)")
+    elif fam == "msg-junk":
+        # well-formed messages of every kind with k copies of an element the receiver does not know appended to the
+        # envelope / to the operation (RFC 4511 extensibility: skipped, at a cost linear in k)
+        from vf.ref import ber
+
+        res = L.LDAPResult(L.LDAPResultCode.SUCCESS, "", "", None)
+        bases = [
+            ("server", [], L.BindRequest(1, [], 3, "", L.SimpleCredential("p"))),
+            ("server", [], L.SearchRequest(1, [], "", L.SearchScope.BASE, L.DereferencingPolicy.NEVER, 0, 0, False, L.FilterPresent("a"), [])),
+            ("server", [], L.ExtendedRequest(1, [], "1.2", None)),
+            ("server", [], L.UnbindRequest(1, [])),
+            ("client", ["bind"], L.BindResponse(1, [], res, None)),
+            ("client", ["search"], L.SearchResultEntry(1, [], "", [])),
+            ("client", ["search"], L.SearchResultReference(1, [], ["u"])),
+            ("client", ["search"], L.SearchResultDone(1, [L.LDAPControl("1.2", False, None)], res)),
+            ("client", ["ext"], L.ExtendedResponse(1, [], res, None, None)),
+        ]
+        junks = {"ctx10": ber.Node(ber.CONTEXT, False, 10, b"1.2.3"), "ctx11": ber.Node(ber.CONTEXT, False, 11, b"v"), "ctx25": ber.Node(ber.CONTEXT, False, 25, b"\x01"),
+                 "app7": ber.Node(ber.APPLICATION, False, 7, b"abc"), "ubool": ber.Node(ber.UNIVERSAL, False, 1, b"\xff"), "ctx3-cons": ber.Node(ber.CONTEXT, True, 3, None, [ber.Node(ber.UNIVERSAL, False, 4, b"x")])}  # fmt: skip
+
+        def run_msg(arg: t.Tuple[str, t.List[str], bytes]) -> None:
+            role, prelude, data = arg
+            sx: t.Any = L.LDAPServer() if role == "server" else L.LDAPClient()
+            for pz in prelude:
+                {"bind": lambda c: c.bind_simple(), "search": lambda c: c.search_request(), "ext": lambda c: c.extended_request("1.2")}[pz](sx)
+            try:
+                sx.receive(data)
+            except L.ProtocolError:
+                pass
+
+        for role, prelude, m in bases:
+            tree0, _ = ber.parse_one(m.pack(c05.K.OPTS), 0, strict=False)
+            for jn, jnode in junks.items():
+                for where in ("envelope", "operation", "controls-entry"):
+                    def make(k: int, where: str = where, jnode: t.Any = jnode, tree0: t.Any = tree0) -> t.Optional[bytes]:
+                        tr = tree0.copy()
+                        if where == "envelope":
+                            tgt = tr
+                        elif where == "operation":
+                            tgt = tr.children[1]
+                        else:
+                            tgt = tr.children[2].children[0] if len(tr.children) > 2 and tr.children[2].children else None
+                        if tgt is None or tgt.children is None:
+                            return None
+                        tgt.children += [jnode.copy() for _ in range(k)]
+                        return ber.encode(tr)
+
+                    if make(1) is None:
+                        continue
+                    rec(family_costs(lambda k: (role, prelude, make(k)), run_msg), {"fam": "msg-junk", "msg": type(m).__name__, "junk": jn, "where": where}, f"receive({type(m).__name__} with k unknown {jn} elements appended to the {where})")
     loc.distinct.add(job[:1] + tuple(job[-2:]))
     return loc
 
@@ -249,6 +299,7 @@ def run(ctx: evid.Ctx) -> None:
     jobs += [("schema", a, b) for a, b in par.split(len(TV) if thorough else len(TOK), 48)]
     jobs += [("recv", a, b) for a, b in par.split(len(BV) if thorough else len(c05.STRUCT), 48)]
     jobs.append(("nest", 0, 0))
+    jobs.append(("msg-junk", 0, 0))
     for loc in par.pmap(_fam_job, jobs, ctx.seed):
         evid.absorb(ctx, loc)
     ctx.counters["evaluations"] = ctx.counters.get("states", 0)
